@@ -120,8 +120,10 @@ CHECKS = [
   "note": COMMON_NOTE + " Construction is verified as well: Quantity.__new__ (SI value = value * factor of the given unit, of the "
           "base unit when none is given; ValueError exactly for an undeclared unit or -- with a unit -- a value that is not exactly "
           "float / int) and Quantity.__init__ (display unit); every construction inside the operators applies these two contracts. "
-          "Assumed: float.__new__(cls, x) yields a new object of class cls with float value x. displayvalue and str() are only in "
-          "the BOUNDED sweep. SI values are finite reals in the model; bit-identity claims are exact only where no arithmetic "
+          "displayvalue is verified (displayvalue * factor(unit) = SI value) and a lemma over the contracts composes the statement's "
+          "chain: construct with (v, u) -> SI value v * f(u), display value v (over the reals), unit u; as_unit(u2) keeps the SI "
+          "value; ordering against a third quantity is unchanged by re-expression; a sum keeps the left unit. Assumed: "
+          "float.__new__(cls, x) yields a new object of class cls with float value x. str() is only in the BOUNDED sweep. SI values are finite reals in the model; bit-identity claims are exact only where no arithmetic "
           "happens (as_unit); sums are equal over the reals and swept natively for rounding (same-unit and mixed-unit operands).",
   "technique": "deductive verification of the inherited operators for a generic receiver class over a ghost SI value; ground obligations over the live unit tables; bounded native sweeps; z3"},
  {"property_id": "C02",
